@@ -190,8 +190,17 @@ def _execute_paths(P, cur):
 
     def on_isinstance(v, c, e):
         return True       # a parsed statement: the parse branch is not of interest here
-    eng = Engine(P, on_call=on_call, on_isinstance=on_isinstance)
-    return ex, eng.paths(ex, {'self': CUR}), DESC, ROWS
+    paths = []
+    for empty in (False, True):
+        # the statement may produce no rows at all: whatever is decided on the rows is examined for both cases
+        def oracle(term, e, _e=empty):
+            if term == ROWS or term == _len(ROWS):
+                return not _e
+            if isinstance(term, T) and term.op == 'cmp' and term.args[1] == _len(ROWS) and term.args[2] == 0:
+                return {'==': _e, '!=': not _e, '>': not _e, '<=': _e, '<': False, '>=': True}.get(term.args[0])
+            return None
+        paths += Engine(P, on_call=on_call, on_isinstance=on_isinstance, oracle=oracle).paths(ex, {'self': CUR})
+    return ex, paths, DESC, ROWS
 
 
 def rule_reset(P) -> RuleResult:
